@@ -213,12 +213,31 @@ class Horizon(BaseException):
     BaseException so that no ``except Exception`` in the library eats it."""
 
 
+_SENDERS = None
+
+
 def make_client(credentials, handle, **kwargs):
     from puresnmp import Client
 
+    global _SENDERS
+    if _SENDERS is None:
+        import weakref
+
+        _SENDERS = weakref.WeakKeyDictionary()
     sender = DirectSender(handle)
     client = Client("192.0.2.1", credentials, sender=sender, **kwargs)
+    try:
+        _SENDERS[client] = sender
+    except TypeError:  # a client that cannot be weakly referenced
+        pass
     return client, sender
+
+
+def sender_of(client):
+    """the harness sender a client was built with (where the client keeps it
+    is its own business)"""
+    s = _SENDERS.get(client) if _SENDERS is not None else None
+    return s if s is not None else client.sender
 
 
 def exc_name(exc):
